@@ -103,6 +103,15 @@ func guardCmp(name, xRe, ops, yRe string) Guard {
 	okOps := map[string]bool{}
 	for _, o := range strings.Fields(ops) {
 		okOps[o] = true
+		// a stronger comparison establishes the weaker one
+		switch o {
+		case "<=":
+			okOps["<"], okOps["=="] = true, true
+		case ">=":
+			okOps[">"], okOps["=="] = true, true
+		case "!=":
+			okOps["<"], okOps[">"] = true, true
+		}
 	}
 	return Guard{Name: name, Match: func(w *World, f *ssa.Function, a Atom) bool {
 		if a.Kind != "cmp" {
